@@ -10,7 +10,7 @@ def pns (l : List PathInfo) : List Nat := l.map (·.pn)
 /-- consistency of memory and disk between two steps (and right after a restart) -/
 structure Inv (M : Manifest) (m : Mem) (d : Disk) : Prop where
   /-- restart.toml is a complete record of the in-memory state -/
-  rec : ∃ r, d.restart = .complete r ∧ r.cstep = m.cstep ∧ r.active = pns m.live
+  record : ∃ r, d.restart = .complete r ∧ r.cstep = m.cstep ∧ r.active = pns m.live
         ∧ r.trajNum = m.trajNum ∧ r.restartedFrom ≠ some r.cstep
   /-- every live path is completely stored, numbered below traj_num, and its traj.txt lists its files -/
   live_ok : ∀ p ∈ m.live, pathOK d.files p = true ∧ p.pn < m.trajNum
@@ -91,7 +91,7 @@ theorem old_live_safe (cfg : Cfg) (M : Manifest) (m : Mem) (c : Choice) (d : Dis
   · rw [crash_split_lt cfg m c d k h hk, pathOK_frame (crashAt_frame hown d k h).1 hnot]
     exact (hI.live_ok p hp).1
   · have hk' : (loopEffs cfg m c d).length ≤ k := Nat.le_of_not_lt hk
-    obtain ⟨r0, hr0, _⟩ := hI.rec
+    obtain ⟨r0, hr0, _⟩ := hI.record
     have hr1 : (run (loopEffs cfg m c d) d).restart = .complete r0 := by
       rw [(run_frame hown d).2.2.1]; exact hr0
     rw [crash_split_ge cfg m c d k h hk', (tail_spec c cfg.variant (newRec m c) r0 _ hr1 _ h).1,
@@ -111,5 +111,91 @@ theorem new_live_stored (cfg : Cfg) (M : Manifest) (m : Mem) (c : Choice) (d : D
       (fun o ho => (hI.olds o ho).1) hW.names_nodup hW.sources i a hia
     rw [List.append_nil] at h
     exact h
+
+
+/-! ### classification of every crash point -/
+
+theorem stepEffs_length (cfg : Cfg) (m : Mem) (c : Choice) (d : Disk) :
+    (stepEffs cfg m c d).length
+      = (loopEffs cfg m c d).length + (dataEffs c ++ restartEffs cfg.variant (newRec m c)).length := by
+  rw [stepEffs_eq, List.length_append]
+
+/-- a crash after the last effect (= the completed step): new record, new paths stored, rows appended -/
+theorem crash_complete (cfg : Cfg) (M : Manifest) (m : Mem) (c : Choice) (d : Disk)
+    (hI : Inv M m d) (hW : WF cfg M m c d) (k : Nat) (h : Bool) (hk : (stepEffs cfg m c d).length ≤ k) :
+    (crashStep cfg m c d k h).restart = .complete (newRec m c)
+    ∧ (crashStep cfg m c d k h).files = (run (loopEffs cfg m c d) d).files
+    ∧ (crashStep cfg m c d k h).data = appendRows d.data (c.accs.map (fun a => a.old.pn)) := by
+  obtain ⟨r0, hr0, _⟩ := hI.record
+  have hown := loop_owned cfg M m c d hW
+  rw [stepEffs_length] at hk
+  have hk' : (loopEffs cfg m c d).length ≤ k := by omega
+  have hr1 : (run (loopEffs cfg m c d) d).restart = .complete r0 := by
+    rw [(run_frame hown d).2.2.1]; exact hr0
+  have hd1 : (run (loopEffs cfg m c d) d).data = d.data := (run_frame hown d).2.1
+  obtain ⟨t1, _, t3, _⟩ := tail_spec c cfg.variant (newRec m c) r0 _ hr1
+    (k - (loopEffs cfg m c d).length) h
+  rw [crash_split_ge cfg m c d k h hk']
+  obtain ⟨a, b⟩ := t3 (by omega)
+  exact ⟨a, t1, by rw [b, hd1]⟩
+
+/-- a crash before the last effect has completed: the old record is still there (and, outside the
+    row window, the data file is unchanged), or — as-is variant, exactly one effect index — the
+    restart file is truncated / half written -/
+theorem crash_incomplete (cfg : Cfg) (M : Manifest) (m : Mem) (c : Choice) (d : Disk)
+    (hI : Inv M m d) (hW : WF cfg M m c d) (k : Nat) (h : Bool) (hlt : k < (stepEffs cfg m c d).length) :
+    ∃ r0, d.restart = .complete r0 ∧
+      ((crashStep cfg m c d k h).restart = .complete r0
+        ∧ (inRowWindow cfg m c d k h = false → (crashStep cfg m c d k h).data = d.data)
+       ∨ (cfg.variant = .asIs ∧ k = restartIdx cfg m c d + 1
+          ∧ ((crashStep cfg m c d k h).restart = .empty ∨ (crashStep cfg m c d k h).restart = .part))) := by
+  obtain ⟨r0, hr0, _⟩ := hI.record
+  refine ⟨r0, hr0, ?_⟩
+  have hown := loop_owned cfg M m c d hW
+  by_cases hk : k < (loopEffs cfg m c d).length
+  · left
+    rw [crash_split_lt cfg m c d k h hk]
+    obtain ⟨_, f2, f3, _⟩ := crashAt_frame hown d k h
+    exact ⟨by rw [f3, hr0], fun _ => f2⟩
+  · have hk' : (loopEffs cfg m c d).length ≤ k := Nat.le_of_not_lt hk
+    have hr1 : (run (loopEffs cfg m c d) d).restart = .complete r0 := by
+      rw [(run_frame hown d).2.2.1]; exact hr0
+    have hd1 : (run (loopEffs cfg m c d) d).data = d.data := (run_frame hown d).2.1
+    obtain ⟨t1, t2, t3, t4, _⟩ := tail_spec c cfg.variant (newRec m c) r0 _ hr1
+      (k - (loopEffs cfg m c d).length) h
+    rw [crash_split_ge cfg m c d k h hk']
+    rw [stepEffs_length] at hlt
+    rcases t2 with t | ⟨t, tl⟩ | ⟨tv, tj, tt⟩
+    · left
+      refine ⟨t, fun hwin => ?_⟩
+      rw [← hd1]
+      apply t4
+      by_cases he : c.accs.isEmpty = true
+      · exact Or.inl he
+      · right
+        simp only [inRowWindow, dataIdx, he, Bool.not_false, Bool.true_and, Bool.or_eq_false_iff,
+          Bool.and_eq_false_iff, decide_eq_false_iff_not, beq_eq_false_iff_ne, ne_eq,
+          Bool.or_eq_false_iff, bne_eq_false_iff_eq] at hwin
+        obtain ⟨w1, w2⟩ := hwin
+        have hLA : (loopEffs cfg m c d).length = (accLoop cfg c.accs m.trajNum m.olds d).length := rfl
+        have hj : k - (loopEffs cfg m c d).length ≤ 1 := by
+          rcases w2 with w2 | w2
+          · have w2' := of_decide_eq_false w2; omega
+          · rw [stepEffs_length] at w2; omega
+        rcases Nat.le_one_iff_eq_zero_or_eq_one.1 hj with h0 | h1
+        · exact Or.inl h0
+        · right
+          refine ⟨h1, ?_⟩
+          have hk1 : k = (loopEffs cfg m c d).length + 1 := by omega
+          rcases w1 with (w | w) | w
+          · exact absurd hk1 w
+          · left; exact w
+          · right; exact w
+    · omega
+    · right
+      refine ⟨tv, ?_, tt⟩
+      unfold restartIdx
+      have : (loopEffs cfg m c d).length = (accLoop cfg c.accs m.trajNum m.olds d).length := rfl
+      omega
 
 end Infretis.Fs
